@@ -519,21 +519,60 @@ void execute_c09(const Plan &plan, Verdict &v) {
     // state of the library), exactly as a fresh process would; the segmentation of B is fixed by the last `cuts` op.
     for (const Op &op : plan.ops)
         if (op.kind == "cuts") cuts = op.a;
+    // `b_idle`: B arrives without its terminator and is completed by the idle timer (in both worlds);
+    // `joint` = k: the first k bytes of B arrive in the same input call as the end of the last history message
+    bool b_idle = plan.k("b_idle", 0) != 0;
+    size_t joint = (size_t) clampl(plan.k("joint", 0), 0, 64);
+    if (b_idle) {
+        while (!B.empty() && (B.back() == '\n' || B.back() == '\r')) B.pop_back();
+        if (B.empty()) {
+            v.trace_hash = 0;
+            return;
+        }
+    }
+    // the head of B must not complete a message of its own inside the joint call (B's messages are counted from the next one)
+    {
+        size_t lim = 0;
+        while (lim < B.size() && B[lim] != '\n' && B[lim] != '\r') lim++;
+        if (lim == B.size() && lim > 0 && !b_idle) lim--;   // (an unterminated B may arrive whole in the joint call: the idle timer completes it)
+        if (joint > lim) joint = lim;
+    }
     {
         size_t c2 = 0;
         errno = 0;
         deliver(w2, B, cuts, c2);
+        if (b_idle) w2.flush_input();
     }
+    size_t last_a = (size_t) -1;
+    for (size_t i = 0; i < plan.ops.size(); i++)
+        if (plan.ops[i].kind == "a" && plan.ops[i].has_s) last_a = i;
+    bool joint_done = false;
     cuts.clear();
     std::unique_ptr<World> w3;
     size_t ci = 0;
     uint64_t clock = 0;
     std::string last_history_op;
-    for (const Op &op : plan.ops) {
+    for (size_t opi = 0; opi < plan.ops.size(); opi++) {
+        const Op &op = plan.ops[opi];
         if (op.kind == "a" || op.kind == "idle" || op.kind == "over") last_history_op = op.kind;
         if (op.kind == "cuts") {
             cuts = op.a;
             ci = 0;
+        } else if (op.kind == "a" && op.has_s && opi == last_a && joint > 0 && opi + 1 == plan.ops.size() - 1 && !op.s.empty() &&
+                   (op.s.back() == '\n' || op.s.back() == '\r') && op.s.size() + joint < (size_t) cfg.inbuf - 1 && w1.ctx->buffer.position == 0) {
+            // the end of the history and the beginning of B in one input call
+            w1.input(op.s + B.substr(0, joint));
+            if (w1.pending() != B.substr(0, joint)) {
+                // the history message was not a complete message after all (its "terminator" was block or string content): the
+                // scenario does not exist for this pair
+                COUNT("joint_call_not_applicable");
+                v.trace_hash = 0;
+                return;
+            }
+            joint_done = true;
+            COUNT("probe_history_end_and_start_of_b_in_one_call");
+            COUNT("history_messages");
+            clock += op.s.size();
         } else if (op.kind == "a" && op.has_s) {
             deliver(w1, op.s, cuts, ci);
             COUNT("history_messages");
@@ -564,7 +603,7 @@ void execute_c09(const Plan &plan, Verdict &v) {
     // A must be terminated: a partial message that is still pending is executed by the idle timer before B arrives.
     // After an overrun or an idle flush the library itself must have emptied the buffer; nothing is flushed then,
     // so that a stale remainder shows up as a difference in B.
-    if (w1.ctx->buffer.position > 0 && last_history_op == "a") {
+    if (w1.ctx->buffer.position > 0 && last_history_op == "a" && !joint_done) {   // (after a joint call the pending bytes are B's own head)
         w1.flush_input();
         COUNT("fault_idle_flush_with_pending");
     }
@@ -572,7 +611,11 @@ void execute_c09(const Plan &plan, Verdict &v) {
     int f0 = w1.flushes;
     std::vector<long> bcuts = cuts;
     size_t c1 = 0;
-    deliver(w1, B, bcuts, c1);
+    deliver(w1, joint_done ? B.substr(joint) : B, bcuts, c1);
+    if (b_idle) {
+        w1.flush_input();
+        COUNT("fault_idle_flush_completes_b");
+    }
     std::string t1 = observable_trace(w1, m0, true, (size_t) -1, true), t2 = observable_trace(w2, 0, true, (size_t) -1, true);
     std::string e1 = slice_errs(w1, m0), e2 = slice_errs(w2, 0);
     if (reads_status(w1, m0) || reads_status(w2, 0))
@@ -614,6 +657,18 @@ void generate_c09(Rng &r, const GenOpts &g, Plan &p) {
         p.ops.push_back(Op("u1", {}, u1s[r.below(sizeof u1s / sizeof u1s[0])]));
         p.ops.push_back(Op("b", {}, u2s[k][0]));
         p.ops.push_back(Op("babs", {}, u2s[k][1]));
+        return;
+    }
+    if (r.chance(1, 25)) {
+        // conversion state: a literal that overflows its reader, then the largest (or smallest) value the same family can hold
+        static const char *over[] = {"TEST:UINT64? 99999999999999999999", "TEST:INT64? -99999999999999999999", "TEST:DOUB? 1e999", "TEST:FLO? 1E39", "TEST:INT32? 99999999999999999999",
+                                     "TEST:ECHO? 99999999999999999999,1e999", "TEST:UINT32? #HFFFFFFFFFFFFFFFFFF", "TEST:NUMB? 1e999 V"};
+        static const char *edge[] = {"TEST:UINT64? #HFFFFFFFFFFFFFFFF", "TEST:UINT64? 18446744073709551615", "TEST:INT64? 9223372036854775807", "TEST:INT64? -9223372036854775808",
+                                     "TEST:DOUB? 1.7976931348623157e308", "TEST:UINT32? 4294967295", "TEST:INT32? -2147483648", "TEST:ECHO? #HFFFFFFFFFFFFFFFF,18446744073709551615",
+                                     "TEST:UINT64? #Q1777777777777777777777", "TEST:FLO? 3.4028235E38"};
+        long nh = r.range(1, 3);
+        for (long i = 0; i < nh; i++) p.ops.push_back(Op("a", {}, std::string(over[r.below(sizeof over / sizeof over[0])]) + gen_terminator(r)));
+        p.ops.push_back(Op("b", {}, std::string(edge[r.below(sizeof edge / sizeof edge[0])]) + gen_terminator(r)));
         return;
     }
     MsgGenOpts ma;
@@ -661,6 +716,8 @@ void generate_c09(Rng &r, const GenOpts &g, Plan &p) {
     }
     std::string b = gen_message(r, mb);
     if (r.chance(1, 10)) b = mutate_bytes(r, b, 1);
+    if (r.chance(1, 6)) p.knob["b_idle"] = 1;
+    if (r.chance(1, 6)) p.knob["joint"] = r.chance(1, 2) ? 64 : r.range(1, 12);
     // B is a terminated message: make sure no terminator byte is inside it by accident (mutation) -- then it would be two messages, still fine
     p.ops.push_back(Op("b", {}, b + gen_terminator(r)));
 }
